@@ -648,7 +648,7 @@ func TestVerifC13StateRoundTrip(t *testing.T) {
 	rec := ev.New("C13", "polprog-state-roundtrip",
 		"rapid: random values for every compared state.State field -> State.AsBytes -> 512-byte map slot -> typed field reads through the real "+
 			"struct cali_tc_state (v4 and v6 builds) must give the same values; reverse: C typed assignments -> slot -> state.StateFromBytes. "+
-			"Non-trivial = all scalar fields non-zero and pairwise distinct bytes in the addresses; distinct = value-class vector",
+			"Non-trivial = 'pattern' cases (every byte of every field distinct and non-zero, pol_rc negative) or all scalar fields non-zero and distinct; distinct = value-class vector",
 		"state map slot is MapParameters.ValueSize bytes, zero padded")
 	defer rec.Write()
 	env := c13Start(t)
@@ -658,10 +658,31 @@ func TestVerifC13StateRoundTrip(t *testing.T) {
 		ipver := rapid.SampledFrom(c13Both).Draw(t, "ipver")
 		l := env.l[ipver]
 		csize := l.C.Structs["tc_state"].Size
+		// "pattern" cases give every byte of every field a distinct non-zero value, so a
+		// shifted, swapped, narrowed or byte-swapped field cannot go unnoticed
+		pattern := rapid.Bool().Draw(t, "pattern")
+		seq := byte(rapid.IntRange(0, 100).Draw(t, "patternStart"))
+		next := func(n int) uint64 {
+			var u uint64
+			for i := 0; i < n; i++ {
+				seq++
+				if seq == 0 {
+					seq = 1
+				}
+				u |= uint64(seq) << (8 * uint(i))
+			}
+			return u
+		}
 		u32 := func(label string) uint32 {
+			if pattern {
+				return uint32(next(4))
+			}
 			return rapid.OneOf(rapid.Uint32(), rapid.SampledFrom([]uint32{0, 1, 0x01020304, 0xffffffff, 0x80000000})).Draw(t, label)
 		}
 		u16 := func(label string) uint16 {
+			if pattern {
+				return uint16(next(2))
+			}
 			return rapid.OneOf(rapid.Uint16(), rapid.SampledFrom([]uint16{0, 1, 0x0102, 0xffff, 0x8000})).Draw(t, label)
 		}
 		var s state.State
@@ -677,16 +698,28 @@ func TestVerifC13StateRoundTrip(t *testing.T) {
 			*w = u32(wordNames[i])
 		}
 		s.PolicyRC = state.PolicyResult(rapid.OneOf(rapid.Int32(), rapid.SampledFrom([]int32{-1, 0, 1, 2, 10, -2147483648})).Draw(t, "pol_rc"))
+		if pattern {
+			s.PolicyRC = state.PolicyResult(int32(uint32(next(4))) | -0x80000000) // negative: sign extension visible
+		}
 		s.SrcPort, s.DstPort = u16("sport"), u16("dport")
 		s.PreNATDstPort, s.PostNATDstPort = u16("pre_nat_dport"), u16("post_nat_dport")
 		s.IPProto = rapid.Uint8().Draw(t, "ip_proto")
+		if pattern {
+			s.IPProto = uint8(next(1))
+		}
 		s.IPSize = u16("ip_size")
 		s.RulesHit = u32("rules_hit")
 		nIDs := rapid.IntRange(0, state.MaxRuleIDs).Draw(t, "nRuleIDs")
 		for i := 0; i < nIDs; i++ {
 			s.RuleIDs[i] = rapid.Uint64().Draw(t, "ruleID")
+			if pattern {
+				s.RuleIDs[i] = next(8)
+			}
 		}
 		s.Flags = rapid.OneOf(rapid.Uint64(), rapid.SampledFrom([]uint64{0, 4, 8, 1 << 10, ^uint64(0)})).Draw(t, "flags")
+		if pattern {
+			s.Flags = next(8)
+		}
 
 		want := map[string]string{
 			"pol_rc": cnative.I(int64(s.PolicyRC)), "sport": cnative.U(uint64(s.SrcPort)), "dport": cnative.U(uint64(s.DstPort)),
@@ -744,10 +777,10 @@ func TestVerifC13StateRoundTrip(t *testing.T) {
 				ipver, want, back, s)
 		}
 
-		distinct := s.SrcPort != 0 && s.DstPort != 0 && s.PreNATDstPort != 0 && s.PostNATDstPort != 0 && s.IPProto != 0 &&
+		distinct := pattern || s.SrcPort != 0 && s.DstPort != 0 && s.PreNATDstPort != 0 && s.PostNATDstPort != 0 && s.IPProto != 0 &&
 			s.PolicyRC != 0 && s.RulesHit != 0 && s.Flags != 0 && s.SrcAddr != 0 && s.PostNATDstAddr != 0 &&
 			s.SrcPort != s.PreNATDstPort && s.PreNATDstPort != s.PostNATDstPort && s.SrcPort != s.DstPort
-		shape := fmt.Sprintf("v%d neg=%v ids=%d ports=%d/%d/%d/%d", ipver, s.PolicyRC < 0, nIDs,
+		shape := fmt.Sprintf("v%d pattern=%v/%d neg=%v ids=%d ports=%d/%d/%d/%d", ipver, pattern, seq%8, s.PolicyRC < 0, nIDs,
 			c13Cls(uint64(s.SrcPort)), c13Cls(uint64(s.DstPort)), c13Cls(uint64(s.PreNATDstPort)), c13Cls(uint64(s.PostNATDstPort)))
 		rec.SizedCase(distinct, shape, nIDs, func() any {
 			return map[string]any{"ipver": ipver, "state": fmt.Sprintf("%+v", s)}
